@@ -433,6 +433,8 @@ def gen_periodic(rng, tie):
     interval = rng.choice([0.5, 1, 1, 2, 0.25, 0.1, 0.3, 0.7, 1.1, 2.2, 3])
     nprobes = rng.choice([1, 1, 2, 3, 4])
     samples = rng.choice([3, 5, 10, 20, 50, 200])
+    if rng.random() < 0.03:
+        samples = rng.choice([800, 1500])        # long histories: the data capacity is reached many times over
     horizon = interval * samples + interval / 2
     hs = [horizon]
     if rng.random() < 0.25:
@@ -469,7 +471,7 @@ def gen_part(rng, tie):
             'nprobes': rng.choice([1, 2, 3]), 'capacity': rng.choice([None, 1, 2, 4]),
             'qualities': [rng.choice([1, 0.5, 0.25, 0.75]) for _ in range(rng.randint(1, 4))],
             'failures': sorted(rng.sample([x / 2 for x in range(2, 80)], rng.choice([0, 0, 1, 3]))),
-            'horizon': float(rng.choice([20, 40, 60])), 'tie': tie, 'tie_seed': rng.randrange(1 << 30),
+            'horizon': float(rng.choice([20, 40, 60, 60, 300])), 'tie': tie, 'tie_seed': rng.randrange(1 << 30),
             'batch': rng.choice([None, None, 2, 3, 4])}
 
 
